@@ -1410,7 +1410,12 @@ impl Compiler {
         let mut static_fields: Vec<&ClassProperty> = Vec::new();
         let mut instance_auto_accessors: Vec<&ClassProperty> = Vec::new();
         let mut static_auto_accessors: Vec<&ClassProperty> = Vec::new();
-        let mut static_blocks: Vec<&crate::ast::BlockStatement> = Vec::new();
+        // Static fields and static blocks in source order: they are evaluated in that order
+        enum StaticElement<'a> {
+            Field(&'a ClassProperty),
+            Block(&'a crate::ast::BlockStatement),
+        }
+        let mut static_elements: Vec<StaticElement> = Vec::new();
         let mut instance_private_fields: Vec<&ClassProperty> = Vec::new();
         let mut static_private_fields: Vec<&ClassProperty> = Vec::new();
         let mut instance_private_methods: Vec<&ClassMethod> = Vec::new();
@@ -1472,13 +1477,14 @@ impl Compiler {
                         // Regular public field
                         if prop.static_ {
                             static_fields.push(prop);
+                            static_elements.push(StaticElement::Field(prop));
                         } else {
                             instance_fields.push(prop);
                         }
                     }
                 }
                 ClassMember::StaticBlock(block) => {
-                    static_blocks.push(block);
+                    static_elements.push(StaticElement::Block(block));
                 }
             }
         }
@@ -1609,11 +1615,6 @@ impl Compiler {
             self.compile_field_decorators(dst, field, true)?;
         }
 
-        // Initialize static fields (on the class constructor itself)
-        for field in &static_fields {
-            self.compile_static_field_initializer(dst, field)?;
-        }
-
         // Define instance auto-accessors (on prototype)
         for accessor in &instance_auto_accessors {
             self.compile_auto_accessor(dst, accessor, false)?;
@@ -1641,9 +1642,13 @@ impl Compiler {
             });
         }
 
-        // Execute static blocks with `this` bound to the class constructor
-        for block in &static_blocks {
-            self.compile_static_block(dst, block)?;
+        // Initialize static fields (on the class constructor itself) and execute static blocks
+        // (with `this` bound to the class constructor), interleaved in source order
+        for element in &static_elements {
+            match element {
+                StaticElement::Field(field) => self.compile_static_field_initializer(dst, field)?,
+                StaticElement::Block(block) => self.compile_static_block(dst, block)?,
+            }
         }
 
         // Initialize static private fields (on the class constructor itself)
